@@ -230,6 +230,45 @@ pub fn sites(_tier: Tier) -> Vec<Site> {
                 }
             }));
     }
+    // ... whatever the earlier call was and however the later value is related to it: every variant encoded or decoded
+    // first, then every wire form in 27 rearrangements (reversed, rotated, two bytes swapped, lower case, byte-swapped in
+    // pairs) decoded on the same thread - the result is the one the value gets on a thread of its own
+    {
+        let forms: Vec<Vec<u8>> = tracks.iter().filter_map(|(_, t)| wire(t)).collect();
+        let mut inputs: Vec<Vec<u8>> = vec![];
+        for f in &forms {
+            let mut r = f.clone(); r.reverse(); inputs.push(r);
+            for k in 1..6 { let mut x = f.clone(); x.rotate_left(k); inputs.push(x); }
+            for a in 0..6 { for b in (a + 1)..6 { let mut x = f.clone(); x.swap(a, b); inputs.push(x); } }
+            inputs.push(f.iter().map(|b| b.to_ascii_lowercase()).collect());
+            inputs.push(vec![f[1], f[0], f[3], f[2], f[5], f[4]]);
+            inputs.push(f.clone());
+        }
+        inputs.sort(); inputs.dedup();
+        let alone: Vec<String> = inputs.iter().map(|b| { let b = b.clone(); std::thread::spawn(move || format!("{:?}", Track::read_le(&mut Cursor::new(&b[..])).map_err(|_| ()))).join().unwrap_or_default() }).collect();
+        let (inputs, alone) = (Arc::new(inputs), Arc::new(alone));
+        let tracks2 = tracks.clone();
+        let n = tracks.len() as u64 * 2;
+        sites.push(Site::new("rearranged-after-any-call", n,
+            "every variant {encoded, decoded} first, then every wire form reversed / rotated / with two bytes swapped / in lower case / byte-swapped in pairs (about 3000 values) decoded on the same thread: each result is the one the value gets on a thread of its own",
+            move |i, acc| {
+                let (name, t) = &tracks2[(i / 2) as usize];
+                let encode_first = i % 2 == 0;
+                let Some(w) = wire(t) else { return };
+                for (k, b) in inputs.iter().enumerate() {
+                    acc.eval();
+                    // (each input is tried right behind the priming call: an intermediate successful decode would replace a memo)
+                    let _ = guard(|| if encode_first { let mut c = Cursor::new(Vec::new()); t.write_le(&mut c).is_ok() } else { Track::read_le(&mut Cursor::new(&w[..])).is_ok() });
+                    let got = guard(|| format!("{:?}", Track::read_le(&mut Cursor::new(&b[..])).map_err(|_| ())));
+                    if got.as_deref() != Ok(alone[k].as_str()) {
+                        acc.violate(i, format!("C14|history-dependent|{name}"), format!("{} decoded right after {name} was {}: {got:?}; on a thread of its own: {}", hex(b), if encode_first { "encoded" } else { "decoded" }, alone[k]), json!({"site": "rearranged-after-any-call", "index": i, "input": hex(b)}));
+                        return;
+                    }
+                }
+                acc.class("rearranged-values-independent-of-the-call-before");
+                acc.nontrivial();
+            }));
+    }
     // ... nor between threads: histories of 2 and 3 decodes spread over two threads
     {
         let want = ["Bl1", "Bl1r", "So1", "Ro10", "Ro10x", "As7", "Fe6r", "La2", "Ky3y", "We1"];
